@@ -250,7 +250,9 @@ class Engine:
                 for l in out.split("\n"):
                     w = l.split(" ")
                     if w[0] == "chk":
-                        res[w[1]] = {kv.split("=")[0]: kv.split("=")[1] == "1" for kv in w[2:] if "=" in kv}
+                        res.setdefault(w[1], {}).update({kv.split("=")[0]: kv.split("=")[1] == "1" for kv in w[2:] if "=" in kv})
+                    elif w[0] == "fail" and len(w) >= 4:
+                        res.setdefault(w[1], {})["fail_" + w[2]] = [int(x, 16) for x in w[3].split(",") if x]
         return res
 
     def fail(self, case, reason, detail=None):
@@ -289,11 +291,14 @@ class Engine:
         keys = P.get("checks", [])
         if keys:
             chk = self.run_checks(cases, iblocks)
+            self.chk = chk
             for c in cases:
                 r = chk.get(c.id, {})
                 for k in keys:
                     if k in r and not r[k]:
-                        self.fail(c, "check_%s = false on the implementation's output" % k)
+                        self.fail(c, "check_%s = false on the implementation's output" % k, dict(key=k))
+                    for cl in r.get("fail_" + k, []):
+                        self.fail(c, "%s clause %d fails on the implementation's output" % (k, cl), dict(key=k, clause=cl))
         if P.get("no_panic", True):
             for c in cases:
                 for l in iblocks.get(c.id, []):
@@ -551,8 +556,8 @@ def extra_C05(eng, cases):
     ib2 = eng.run_impl([a for _, a in alt])
     eng.ev["evaluations"] += len(alt)
     for c, a in alt:
-        b1 = eng.iblocks.get(c.id, [])
-        b2 = ib2.get(a.id, [])
+        b1 = [l for l in eng.iblocks.get(c.id, []) if not l.startswith("s ")]
+        b2 = [l for l in ib2.get(a.id, []) if not l.startswith("s ")]
         ops = [l for l in c.lines if l.startswith("o ")]
         rs = [l for l in b1 if l.startswith("r ")]
         kept = []
@@ -577,6 +582,7 @@ def nt_has_err(c, b):
 
 KNOWN_CLASSES = {}
 
+
 PROPS = {
     "C01": dict(fams=[("fam_mux_av", 150, 3000), ("fam_mux_clean", 100, 2000), ("fam_mux_basic", 50, 1000)],
                 checks=["C01"], obs=obs_samples, components=["K7", "K1", "K2"], nontrivial=nt_finished,
@@ -590,3 +596,413 @@ PROPS = {
     "C14": dict(fams=[("fam_fn_annexb", 400, 20000)], checks=["C14"], obs=obs_all, components=["K1", "K2"],
                 nontrivial=lambda c, b: True),
 }
+
+# ---------------------------------------------------------------- pair checks through the driver
+def driver_pairs(lines):
+    p = subprocess.run([DRIVER, "pairs"], input=("\n".join(lines) + "\n").encode(), stdout=subprocess.PIPE,
+                       stderr=subprocess.PIPE, timeout=900)
+    res = {}
+    for l in p.stdout.decode().split("\n"):
+        w = l.split(" ")
+        if w[0] == "chk" and len(w) >= 3:
+            res[w[1]] = w[2].split("=")[1] == "1"
+        elif w[0] == "fail" and len(w) >= 3:
+            res[w[1]] = [int(x, 16) for x in (w[3] if len(w) > 3 else "").split(",") if x]
+    return res
+
+
+def toggle_line(case, prefix, newline, cid):
+    c = case.clone(cid)
+    c.lines = [l for l in c.lines if not l.startswith(prefix)]
+    if newline is not None:
+        # keep builder lines first
+        k = 0
+        while k < len(c.lines) and c.lines[k].startswith("b "):
+            k += 1
+        c.lines.insert(k, newline)
+    return c
+
+
+def extra_C08(eng, cases):
+    pairs = []
+    for c in cases:
+        if c.kind != "mux" or any(l.startswith("sink") for l in c.lines):
+            continue
+        on = toggle_line(c, "b fast", "b fast 1", c.id + "_on")
+        off = toggle_line(c, "b fast", "b fast 0", c.id + "_off")
+        pairs.append((c, on, off))
+    ib = eng.run_impl([x for _, a, b in pairs for x in (a, b)])
+    eng.ev["evaluations"] += 2 * len(pairs)
+    lines, idx = [], {}
+    for c, on, off in pairs:
+        b1, b2 = ib.get(on.id, []), ib.get(off.id, [])
+        def nostatbytes(l):
+            # the byte count may differ between layouts only through the (empty) mdat of a
+            # file without samples; it is compared through the files themselves
+            return " ".join(l.split(" ")[:5]) if l.startswith("r stats") else l
+        r1 = [nostatbytes(l) for l in b1 if l.startswith("r ") or l.startswith("build")]
+        r2 = [nostatbytes(l) for l in b2 if l.startswith("r ") or l.startswith("build")]
+        if r1 != r2:
+            eng.fail(c, "fast start on/off changes a call result or the statistics",
+                     dict(on=[x[:120] for x in r1[:10]], off=[x[:120] for x in r2[:10]]))
+            continue
+        if first_ok_fin(on, b1) is None:
+            continue
+        opsl = on.ops()
+        nsamples = sum(1 for k, l in enumerate([l for l in b1 if l.startswith("r ")])
+                       if l == "r ok" and k < len(opsl) and opsl[k][0] != "fin")
+        lines.append("c08 %s %d %s %s" % (c.id, 1 if nsamples > 0 else 0, hx(sink_of(b1)), hx(sink_of(b2))))
+        idx[c.id] = c
+    res = driver_pairs(lines) if lines else {}
+    for cid, c in idx.items():
+        if res.get(cid) is False:
+            eng.fail(c, "check_C08 = false: the two layouts do not describe the same media or have the wrong box order")
+    eng.c08_pairs = len(idx)
+
+
+def extra_C18(eng, cases):
+    """metadata must not change samples, timing or configuration"""
+    pairs = []
+    for c in cases:
+        if c.kind != "mux" or any(l.startswith("sink") for l in c.lines):
+            continue
+        if not any(l.startswith("b meta") or l.startswith("b ctime") or l.startswith("b lang") for l in c.lines):
+            continue
+        bare = c.clone(c.id + "_nometa")
+        bare.lines = [l for l in bare.lines if not (l.startswith("b meta") or l.startswith("b ctime") or l.startswith("b lang"))]
+        pairs.append((c, bare))
+    ib = eng.run_impl([b for _, b in pairs])
+    eng.ev["evaluations"] += len(pairs)
+    lines, idx = [], {}
+    for c, bare in pairs:
+        b1, b2 = eng.iblocks.get(c.id, []), ib.get(bare.id, [])
+        r1 = [l for l in b1 if l.startswith("r ") and not l.startswith("r stats")]
+        r2 = [l for l in b2 if l.startswith("r ") and not l.startswith("r stats")]
+        if r1 != r2:
+            eng.fail(c, "metadata changes a call result", dict(a=r1[:8], b=r2[:8]))
+            continue
+        if first_ok_fin(c, b1) is None:
+            continue
+        lines.append("same %s 1 %s %s" % (c.id, hx(sink_of(b1)), hx(sink_of(b2))))
+        idx[c.id] = c
+    res = driver_pairs(lines) if lines else {}
+    for cid, c in idx.items():
+        if res.get(cid) is False:
+            eng.fail(c, "metadata changes samples, timing or configuration (same_media = false)")
+
+
+def extra_C13(eng, cases):
+    """each scripted-sink case against its fault-free twin on the real crate"""
+    twins = []
+    for c in cases:
+        sl = [l for l in c.lines if l.startswith("sink")]
+        if c.kind != "mux" or not sl:
+            continue
+        twins.append((c, toggle_line(c, "sink", None, c.id + "_clean"), sl[0].split(" ")[1:]))
+    ib = eng.run_impl([t for _, t, _ in twins])
+    eng.ev["evaluations"] += len(twins)
+    for c, t, script in twins:
+        b1, b2 = eng.iblocks.get(c.id, []), ib.get(t.id, [])
+        if any("panic" in l for l in b1):
+            eng.fail(c, "finish panicked under a faulty sink")
+            continue
+        s1, s2 = sink_of(b1), sink_of(b2)
+        if not s2.startswith(s1):
+            eng.fail(c, "bytes accepted by the faulty sink are not a prefix of the fault-free file",
+                     dict(accepted=len(s1), faultfree=len(s2)))
+            continue
+        benign = all(e == "i" or (e.startswith("a") and int(e[1:], 16) > 0) for e in script)
+        r1 = [l for l in b1 if l.startswith("r ")]
+        r2 = [l for l in b2 if l.startswith("r ")]
+        if benign and (s1 != s2 or r1 != r2):
+            eng.fail(c, "short writes / interruptions alone changed the delivered bytes, a result or the byte count")
+        sink_err = any(l.startswith("r err Io Injected") or l.startswith("r err Io WriteZero") for l in r1)
+        if sink_err and benign:
+            eng.fail(c, "finish reported a sink error although no write failed")
+        if not benign and not sink_err and s1 != s2:
+            eng.fail(c, "a write failed for good but finish did not report it")
+        # after a failure no later call writes anything further
+        lens = [int(l.split(" ")[1], 16) for l in b1 if l.startswith("s ")]
+        seen_fin = False
+        ops = c.ops()
+        for k, ln in enumerate(lens):
+            if k < len(ops) and ops[k][0] == "fin" and not seen_fin:
+                seen_fin = True
+                base = ln
+            elif seen_fin and ln != base:
+                eng.fail(c, "a call after the finish attempt wrote further bytes")
+                break
+
+
+def fam_sink_points(rng, n, prefix):
+    """every failure point of a few representative histories: each write call x error kind,
+    each byte offset through 1-byte short writes, interruption bursts"""
+    out = []
+    reps = []
+    for codec, audio, fast in [("h264", "none-cfg", 0), ("h264", "aac-lc", 1), ("h265", "opus", 0), ("vp9", "none-cfg", 1)]:
+        cfg = F.rand_cfg(rng, codec=codec, audio=audio, fast=bool(fast), dims=(640, 480), meta=rng.below(8))
+        reps.append(F.mux_history(rng, "rep", cfg=cfg, nv=3, na=2 if audio != "none-cfg" else 0, bframes=False,
+                                  rejects=0, fin=0, post=1))
+    k = 0
+    per = max(1, n // (len(reps) * 3))
+    for rep in reps:
+        for i in range(per):           # fail at write call i with kind i mod 9
+            c = rep.clone("%s%d" % (prefix, k)); k += 1
+            c.lines.insert(0, "sink " + " ".join(["a%x" % 10**6] * i + ["f%x" % (i % 9)]))
+            _fix_builder_first(c); out.append(c)
+        for i in range(per):           # fail after exactly i*3 bytes (1-byte writes)
+            c = rep.clone("%s%d" % (prefix, k)); k += 1
+            c.lines.insert(0, "sink " + " ".join(["a1"] * (i * 3) + [rng.choice(["f1", "a0"])]))
+            _fix_builder_first(c); out.append(c)
+        for i in range(per):           # benign: bursts of interruptions and short writes
+            c = rep.clone("%s%d" % (prefix, k)); k += 1
+            c.lines.insert(0, "sink " + " ".join(rng.choice(["i", "i", "a1", "a2", "a7", "a100"]) for _ in range(rng.range(1, 40))))
+            _fix_builder_first(c); out.append(c)
+    return out
+
+
+def _fix_builder_first(c):
+    sink = [l for l in c.lines if l.startswith("sink")]
+    rest = [l for l in c.lines if not l.startswith("sink")]
+    k = 0
+    while k < len(rest) and rest[k].startswith("b "):
+        k += 1
+    c.lines = rest[:k] + sink + rest[k:]
+
+
+F.fam_sink_points = fam_sink_points
+
+
+def extra_C17(eng, cases):
+    """equivalent API paths, sink types, threads, repeated instances (tests supporting the
+    path-equivalence theorems; labelled as tests in the evidence)"""
+    mux = [c for c in cases if c.kind == "mux" and not any(l.startswith("sink") for l in c.lines)]
+    # 1. alias paths
+    variants = []
+    for c in mux:
+        v = c.clone(c.id + "_alias")
+        v.lines = [l.replace("b video ", "b setvideo ").replace("b audio ", "b setaudio ") if not l.startswith("b set") else
+                   l.replace("b setvideo ", "b video ").replace("b setaudio ", "b audio ") for l in v.lines]
+        # fin 0 <-> fin 3 (consuming with stats), fin 1 <-> fin 2/4 when last
+        if v.lines and v.lines[-1].startswith("o fin"):
+            k = v.lines[-1].split(" ")[2]
+            v.lines[-1] = "o fin " + {"0": "3", "3": "0", "1": "4", "2": "1", "4": "2"}[k]
+        variants.append((c, v))
+    ib = eng.run_impl([v for _, v in variants])
+    eng.ev["evaluations"] += len(variants)
+    for c, v in variants:
+        b1, b2 = eng.iblocks.get(c.id, []), ib.get(v.id, [])
+        def norm(b):
+            return [("r ok" if l.startswith("r stats") else l) for l in b if not l.startswith("s ")]
+        if sink_of(b1) != sink_of(b2) or norm(b1)[:-1] != norm(b2)[:-1]:
+            eng.fail(c, "equivalent API path (builder alias / finish variant) gives a different file or result")
+    # 2. sink types
+    text = "".join(c.text() for c in mux)
+    env = dict(os.environ, HARNESS_MODE="sinks")
+    p = subprocess.run([HARNESS_DEBUG], input=text.encode(), stdout=subprocess.PIPE, stderr=subprocess.PIPE, env=env, timeout=900)
+    blocks = parse_blocks(p.stdout.decode())
+    for c in mux:
+        b = blocks.get(c.id, [])
+        main = sink_of(b)
+        for l in b:
+            if l.startswith("alt "):
+                w = l.split(" ")
+                if unhx(w[-1]) != main:
+                    eng.fail(c, "sink type %s receives different bytes" % w[1])
+    # 3. threads: 1..16 concurrently running interpreters over the same input
+    for n in ([4, 16] if eng.tier == "quick" else [1, 2, 3, 4, 8, 16]):
+        env = dict(os.environ, HARNESS_MODE="threads:%d" % n)
+        p = subprocess.run([HARNESS_DEBUG], input="".join(c.text() for c in cases).encode(), stdout=subprocess.PIPE,
+                           stderr=subprocess.PIPE, env=env, timeout=1200)
+        out = p.stdout.decode()
+        if "identical 1" not in out:
+            eng.fail(cases[0], "outputs differ between %d concurrently running threads" % n)
+        blocks = parse_blocks(out)
+        for c in cases:
+            if blocks.get(c.id) != eng.iblocks.get(c.id):
+                eng.fail(c, "result on a worker thread differs from the main-thread result")
+                break
+    # 4. a second run in a fresh process (different wall-clock time, new instances)
+    again = eng.run_impl(cases[:200])
+    for c in cases[:200]:
+        if again.get(c.id) != eng.iblocks.get(c.id):
+            eng.fail(c, "repeating the history in another process gives a different result")
+            break
+    # 5. source scan (evidence only; no verdict)
+    hits = []
+    for root_, _, files in os.walk("/repo/src"):
+        if "/bin" in root_:
+            continue
+        for fn in files:
+            if fn.endswith(".rs"):
+                for k, line in enumerate(open(os.path.join(root_, fn), errors="replace")):
+                    if re.search(r"\bstatic\b|thread_local!|SystemTime|Instant::|env::|rand", line) and "//" not in line.split("static")[0][-3:]:
+                        hits.append("%s:%d:%s" % (fn, k + 1, line.strip()[:80]))
+    eng.notes.append("global-state scan (informational): " + "; ".join(hits[:12]))
+
+
+def extra_C19(eng, cases):
+    """fragmented init segments through failed_C19_init"""
+    lines, idx = [], {}
+    for c in cases:
+        if c.kind != "frag":
+            continue
+        b = eng.iblocks.get(c.id, [])
+        init = [l for l in b if l.startswith("r bytes ")]
+        vid = [l for l in c.lines if l.startswith("b video") or l.startswith("fc ")]
+        if not init or not vid:
+            continue
+        w = vid[0].split(" ")
+        if w[0] == "fc":
+            W, H, TS = w[1], w[2], w[3]
+        else:
+            W, H, TS = w[3], w[4], "15f90"
+        lines.append("c19init %s %s %s %s %s" % (c.id, W, H, TS, init[0].split(" ")[2]))
+        idx[c.id] = c
+    res = driver_pairs(lines) if lines else {}
+    for cid, c in idx.items():
+        for cl in res.get(cid, []) or []:
+            eng.fail(c, "C19 clause %d fails on the init segment" % cl, dict(key="C19", clause=cl, frag=True))
+
+
+def cfg_of(case):
+    return case.meta.get("cfg") or {}
+
+
+def builder_words(case, key):
+    for l in case.lines:
+        w = l.split(" ")
+        if w[0] == "b" and w[1] in key:
+            return w
+    return None
+
+
+def kc_c19(clause, pred=lambda c: True):
+    def f(eng, fl):
+        d = fl.get("detail") or {}
+        return d.get("key") == "C19" and d.get("clause") == clause and pred(fl["case"], d)
+    return f
+
+
+def is_vp9(c, d):
+    w = builder_words(c, ("video", "setvideo"))
+    if w and w[2] == "vp9":
+        return True
+    return any(l.startswith("b vp9 ") for l in c.lines) and c.kind == "frag"
+
+
+def is_opus_multi(c, d):
+    w = builder_words(c, ("audio", "setaudio"))
+    return bool(w) and w[2] == "opus" and int(w[4], 16) > 2
+
+
+def is_frag_av1_hevc(c, d):
+    if c.kind != "frag":
+        return False
+    w = builder_words(c, ("video", "setvideo"))
+    return bool(w) and w[2] in ("av1", "h265")
+
+
+def total_ticks(case, block):
+    """rough: does some track span >= 2^32 ticks? (decides the duration-wrap class)"""
+    ts = {"v": [], "a": []}
+    rs = [l for l in block if l.startswith("r ")]
+    for k, o in enumerate(case.ops()):
+        if k >= len(rs) or not (rs[k] == "r ok"):
+            continue
+        if o[0] == "wv":
+            ts["v"].append(bits_f64(int(o[1], 16)))
+        elif o[0] == "wvd":
+            ts["v"].append(bits_f64(int(o[2], 16)))
+        elif o[0] == "wa":
+            ts["a"].append(bits_f64(int(o[1], 16)))
+    for l in ts.values():
+        if len(l) >= 2:
+            span = (l[-1] - l[0]) + (l[-1] - l[-2])
+            if span * 90000 >= 2**32 - 2:
+                return True
+    return False
+
+
+def kc_duration_wrap(eng, fl):
+    d = fl.get("detail") or {}
+    c = fl["case"]
+    if d.get("key") == "C16" and d.get("clause") not in (4, 5):
+        return False
+    return total_ticks(c, eng.iblocks.get(c.id, []) or eng.run_impl([c]).get(c.id, []))
+
+
+def kc_rate_16_16(eng, fl):
+    d = fl.get("detail") or {}
+    w = builder_words(fl["case"], ("audio", "setaudio"))
+    return d.get("key") == "C16" and d.get("clause") == 8 and bool(w) and int(w[3], 16) >= 65536
+
+
+def kc_av_start_offset(eng, fl):
+    c = fl["case"]
+    b = eng.iblocks.get(c.id) or eng.run_impl([c]).get(c.id, [])
+    rs = [l for l in b if l.startswith("r ")]
+    fv = fa = None
+    cur_v = 0.0
+    for k, o in enumerate(c.ops()):
+        if k >= len(rs) or rs[k] != "r ok":
+            continue
+        if o[0] == "wv" and fv is None:
+            fv = bits_f64(int(o[1], 16))
+        elif o[0] == "wvd" and fv is None:
+            fv = bits_f64(int(o[2], 16))
+        elif o[0] == "ev" and fv is None:
+            fv = 0.0
+        elif o[0] == "wa" and fa is None:
+            fa = bits_f64(int(o[1], 16))
+        elif o[0] == "ea" and fa is None:
+            fa = 0.0
+    if fv is None or fa is None:
+        return False
+    return abs(round(fa * 90000) - round(fv * 90000)) > 1
+
+
+KNOWN_CLASSES = {
+    "av_start_offset": kc_av_start_offset,
+    "c19_clause_3_progressive": kc_c19(3, lambda c, d: c.kind == "mux"),
+    "c19_clause_4_progressive": kc_c19(4, lambda c, d: c.kind == "mux"),
+    "c19_clause_7_progressive": kc_c19(7, lambda c, d: c.kind == "mux"),
+    "c19_clause_10_vp9": kc_c19(10, is_vp9),
+    "c19_clause_11_opus_multichannel": kc_c19(11, is_opus_multi),
+    "c19_clause_10_frag_av1_hevc": kc_c19(10, is_frag_av1_hevc),
+    "c16_duration_wrap": kc_duration_wrap,
+    "c16_sample_rate_16_16": kc_rate_16_16,
+}
+
+PROPS.update({
+    "C04": dict(fams=[("fam_contract", 300, 20000), ("fam_mux_basic", 150, 3000)], checks=["C04"], obs=obs_results,
+                components=["K7", "K2", "K3", "K4", "K5", "K6"], nontrivial=nt_has_err),
+    "C06": dict(fams=[("fam_mux_basic", 200, 4000), ("fam_mux_av", 80, 2000), ("fam_sink", 60, 1000)], checks=["C06"],
+                obs=obs_results, components=["K7"], nontrivial=lambda c, b: first_ok_fin(c, b) is not None),
+    "C07": dict(fams=[("fam_mux_clean", 200, 4000), ("fam_mux_av", 100, 2000)], checks=["C07"],
+                obs=obs_boxes(b"stsd"), components=["K4", "K5", "K6", "K7", "K8"], nontrivial=nt_finished),
+    "C08": dict(fams=[("fam_mux_av", 80, 1500), ("fam_mux_clean", 80, 1500), ("fam_mux_basic", 40, 800)], checks=[],
+                extra=extra_C08, obs=obs_all, components=["K7"], nontrivial=nt_finished),
+    "C09": dict(fams=[("fam_mux_av", 200, 4000)], checks=["C09"], obs=obs_boxes(b"stts", b"ctts", b"elst"),
+                components=["K7"], nontrivial=nt_finished),
+    "C10": dict(fams=[("fam_frag", 300, 20000)], checks=["C10"], obs=obs_all, components=["K8"],
+                nontrivial=lambda c, b: any(l.startswith("r seg ") and not l.endswith("none") for l in b)),
+    "C11": dict(fams=[("fam_frag", 300, 20000)], checks=["C11"], obs=obs_all, components=["K8"],
+                nontrivial=lambda c, b: sum(1 for l in b if l.startswith("r seg ") and not l.endswith("none")) >= 2),
+    "C12": dict(fams=[("fam_fn_annexb", 300, 20000), ("fam_fn_codec", 400, 20000), ("fam_contract", 200, 5000),
+                      ("fam_mux_basic", 150, 3000), ("fam_frag", 100, 3000), ("fam_sink", 50, 500)],
+                checks=[], obs=obs_panic, components=["K1", "K2", "K3", "K4", "K5", "K6", "K7", "K8", "K10"],
+                nontrivial=lambda c, b: True),
+    "C13": dict(fams=[("fam_sink", 150, 1500), ("fam_sink_points", 120, 3000)], checks=[], extra=extra_C13, obs=obs_all,
+                components=["K10"], nontrivial=lambda c, b: any(l.startswith("r err Io") for l in b)),
+    "C15": dict(fams=[("fam_mux_av", 250, 5000)], checks=["C15"], obs=obs_samples, components=["K7"], nontrivial=nt_finished),
+    "C16": dict(fams=[("fam_mux_clean", 150, 3000), ("fam_mux_av", 100, 2000)], checks=["C16"], obs=obs_all,
+                components=["K7", "K8"], nontrivial=nt_finished),
+    "C17": dict(fams=[("fam_mux_basic", 120, 1500), ("fam_mux_av", 60, 800), ("fam_frag", 60, 800)], checks=[], extra=extra_C17,
+                obs=obs_all, components=["K7", "K8"], nontrivial=lambda c, b: True, no_shrink=True),
+    "C18": dict(fams=[("fam_mux_basic", 200, 4000), ("fam_mux_clean", 100, 2000)], checks=["C18"], extra=extra_C18,
+                obs=obs_boxes(b"udta", b"mdhd"), components=["K7"], nontrivial=nt_finished),
+    "C19": dict(fams=[("fam_mux_basic", 150, 3000), ("fam_mux_av", 100, 2000), ("fam_frag", 80, 1500)], checks=["C19"],
+                extra=extra_C19, obs=obs_boxes(b"mvhd", b"tkhd", b"mdhd", b"hdlr", b"vmhd", b"smhd", b"dref", b"stsd", b"trex"),
+                components=["K7", "K8"], nontrivial=lambda c, b: True),
+})
